@@ -223,4 +223,62 @@ theorem richFindContainerSize_hard_body_eq_model (R : Ro) (c : Ctx) (cells : Lis
       · intro a ch i
         simp [Step.toRes, u16]
 
+/-! ### Surface.render -/
+
+/-- **render_body_eq_model**: the executed body of `Surface.render` — the own-buffer loop (`row := i / int(W)`, `col := i %
+int(W)`, `win.SetCell`: a division by zero for a surface of width 0 with cells), the cursor branch, `sort.Slice` of the
+children by ZIndex, and the loop that renders every child into `win.New(col, row, int(W), int(H))` — with the recursive calls
+being the model's `render`, IS the model's `render`: same screen, same panic.  (The model is the fixed point of the body.)
+EVERY cell of the buffer is handed to `SetCell`, blank or not; the children are painted in the sorted order; and the receiver's
+`Children` are left sorted in place (`sortedInPlace`: the slice shares its array with the caller's surface — what hit-testing
+sees afterwards). -/
+theorem render_body_eq_model (R : Ro) (s : Surface) (win : Win) (scr : Screen) (foc : Nat)
+    (hR : R.render = render) :
+    (run R SurfaceBodies.render SurfaceBodies.renderParams [.surf s, .win win, .wid foc] scr).map (·.2)
+      = (match render s win scr with
+         | .ok scr' => .ok (some (.surf (sortedInPlace s)), scr')
+         | .error p => .error (.panic p)) := by
+  cases s with
+  | mk w h buf kids =>
+  simp [SurfaceBodies.render, SurfaceBodies.renderParams, Surface.buf]
+  rw [loopS_foldSI R _ 3 (.range "v2" "v3")
+    (fun (sc : Screen) => { ρ := [("r", .surf (.mk w h buf kids)), ("v0", .win win), ("v1", .wid foc)], scr := sc })
+    Val.cell (cellStep w win) ?_ buf 0 scr, foldSI_cells]
+  · by_cases hz : w = 0 ∧ buf ≠ []
+    · have hz' : (w == 0 && !buf.isEmpty) = true := by
+        obtain ⟨h1, h2⟩ := hz
+        subst h1
+        cases buf with
+        | nil => exact absurd rfl h2
+        | cons a b => simp
+      simp [hz, Step.toRes, render, Surface.divZero]
+    · simp only [hz, if_false, Step.toRes]
+      simp [Surface.kids]
+      rw [toVals_eq, Kids.sortZ, toL_ofL]
+      rw [loopS_foldS R _ 3 (.range "_" "v8")
+        (fun (sc : Screen) => { ρ := [("r", .surf (.mk w h buf (Kids.ofL (sortByZ (Kids.toL kids))))), ("v0", .win win), ("v1", .wid foc)], scr := sc })
+        subOf (kidStep win) ?_ (sortByZ (Kids.toL kids)) 0 _, foldS_kids, any_sortByZ]
+      · have hz' : (w == 0 && !buf.isEmpty) = false := by
+          cases buf with
+          | nil => simp
+          | cons a b => simp at hz; simp [hz]
+        by_cases hk : ((Kids.toL kids).any fun p => p.2.2.2.divZero) = true
+        · simp [hk, Step.toRes, render, Surface.divZero, divZero_eq]
+        · simp only [Bool.not_eq_true] at hk
+          simp [hk, Step.toRes, render, Surface.divZero, divZero_eq, hz', Surface.paint, cellOps, applyPaint_append, layers_eq, sortedInPlace, Kids.sortZ,
+            sortByZ_map (kidPaint win)]
+      · intro sc p i
+        obtain ⟨z, c, r, ch⟩ := p
+        cases ch with
+        | mk cw chh cb ck =>
+        simp [subOf, kidStep, kidWin, kidWinP, hR, Step.toRes, Surface.w, Surface.h]
+        cases render (Surface.mk cw chh cb ck) (win.new c r (↑cw.toNat) (↑chh.toNat)) sc <;> simp
+  · intro sc c i
+    by_cases hw : w = 0
+    · simp [cellStep, hw, Step.toRes, Surface.w]
+    · have hw' : ¬ (w.toNat = 0) := by
+        intro h; apply hw; apply UInt16.toNat_inj.1; simpa using h
+      simp [cellStep, hw, hw', Step.toRes, Surface.w]
+      rw [Int.tmod_eq_emod_of_nonneg (Int.natCast_nonneg i)]
+
 end VaxisModel.Props.C14Body
